@@ -16,6 +16,7 @@ LEVEL_TEXT = ('Proof (all op lists): recorded sites = first-occurrence dedup of 
               'changes; phosphosequence has E at exactly those positions; the distribution has 2^k entries in binary counting '
               'order (first site most significant) each being the correspondingly substituted sequence. Tie: source fingerprints; '
               'histories replayed on real objects and compared step by step inside Coq.')
+LEVEL_NOTE_MINIPY = ' Whole-function semantic ties (source translated to Core/MiniPy terms on every run, proved equal to the model for all inputs): setPhosPhoSites, clear/get_phosphosites, get_phosphosequence, get_STY_residues, kappa_at_maxPhos.'
 LEVEL_NOTE = 'Closed under the global context. D4 (range guard) was a genuine defect, fixed in /repo; its witness is replayed every run.'
 TECHNIQUE = 'Coq proof (fold_left invariants over op lists, nth_error, binary counting induction) + in-Coq history correspondence'
 
